@@ -157,6 +157,8 @@ pub fn p_canonization_ind(
     best: &mut [u64],
     all_swaps: &[u8],
 ) -> usize {
+    #[cfg(feature = "verif-hooks")]
+    crate::verif::record_walk("p", num_vars, all_swaps, &[]);
     best.clone_from_slice(table);
     let mut best_ind = 0;
     let mut ind = 0;
@@ -178,6 +180,8 @@ pub fn n_canonization_ind(
     best: &mut [u64],
     all_flips: &[u8],
 ) -> usize {
+    #[cfg(feature = "verif-hooks")]
+    crate::verif::record_walk("n", num_vars, &[], all_flips);
     best.clone_from_slice(table);
     let mut best_ind = 0;
     let mut ind = 0;
@@ -202,6 +206,8 @@ pub fn npn_canonization_ind(
     all_swaps: &[u8],
     all_flips: &[u8],
 ) -> usize {
+    #[cfg(feature = "verif-hooks")]
+    crate::verif::record_walk("npn", num_vars, all_swaps, all_flips);
     best.clone_from_slice(table);
     let mut best_ind = 0;
     let mut ind = 0;
